@@ -7,9 +7,11 @@
   lou_backTranslateString.c and run on the logical table (= DUMP of the real compiler: the
   byte-code is the `dots` field of a pass rule, the chains are the FP / BP records).
 
-  Fragment: first (`), last (~), look-back (_n), string / dots literals, replace brackets and
-  the actions literal, omit (?) and copy (*).  Any other instruction met while a stage runs
-  makes the whole stage `unsupported` (the check then skips the comparison) — never a guess.
+  Fragment: first (`), last (~), look-back (_n), string / dots literals, negation (!), attribute
+  operands ($a, $l1-3, %class …) with their repeat counts, tests and assignments of the pass
+  variables (#n=k, #n<k, #n+ …), replace brackets and the actions literal, omit (?) and copy (*).
+  Any other instruction (swap, grouping, look-ahead search) met while a stage runs makes the whole
+  stage `unsupported` (the check then skips the comparison) — never a guess.
   Cursor tracking is not modelled (the stages do not touch the cursor for these opcodes).
 -/
 import LouModel.Table
@@ -50,65 +52,167 @@ def matchFwd (input : List Nat) (pos : Int) (lit : List Nat) : Bool :=
 def matchBack (input : List Nat) (pos : Int) (lit : List Nat) : Bool :=
   pos.toNat + lit.length ≤ input.length && (lit.zip (input.drop pos.toNat)).all (fun (l, c) => l == c)
 
-/-- `passDoTest` (forward) on the literal fragment.  `fuel` bounds the number of instructions. -/
-def fwdTest (p : List Nat) (input : List Nat) (startMatch : Int) :
-    Nat → Int → Nat → Int → Int → TestRes
-  | 0, _, _, _, _ => .fail
-  | fuel + 1, pos, ic, sr, er =>
+/-- the 64-bit attribute mask of an attribute operand (four instruction words) -/
+def attrMask (p : List Nat) (ic : Nat) : Nat :=
+  ((ins p (ic + 1) * 65536 + ins p (ic + 2)) * 65536 + ins p (ic + 3)) * 65536 + ins p (ic + 4)
+
+/-- attributes of an element as a stage sees them: characters (correct) or cells (pass2-4) -/
+def attrsAt (t : Table) (dotsSide : Bool) (x : Nat) : Nat :=
+  if dotsSide then (t.getDots x).attrs else (t.getChar x).attrs
+
+/-- the mandatory repetitions of an attribute operand: (all matched, position reached).  `neg` = the operand is
+    negated (forward only: the backward interpreter negates the outcome instead); `seg` = the end-segment mark
+    never matches (forward only) -/
+def attrMin (t : Table) (dotsSide neg seg : Bool) (mask : Nat) (input : List Nat) : Nat → Int → Bool × Int
+  | 0, pos => (true, pos)
+  | k + 1, pos =>
+    if pos ≥ input.length then (false, pos)
+    else if seg && elem input pos == LOU_ENDSEGMENT then (false, pos)
+    else if ((attrsAt t dotsSide (elem input pos) &&& mask) != 0) == neg then (false, pos)
+    else attrMin t dotsSide neg seg mask input k (pos + 1)
+
+/-- the optional repetitions: stops at the first element that does not qualify -/
+def attrMax (t : Table) (dotsSide neg seg : Bool) (mask : Nat) (input : List Nat) : Nat → Int → Bool × Int
+  | 0, pos => (true, pos)
+  | k + 1, pos =>
+    if pos ≥ input.length then (true, pos)
+    else if seg && elem input pos == LOU_ENDSEGMENT then (false, pos)
+    else if ((attrsAt t dotsSide (elem input pos) &&& mask) != 0) == neg then (true, pos)
+    else attrMax t dotsSide neg seg mask input k (pos + 1)
+
+/-- an attribute operand with counts min..max -/
+def attrOperand (t : Table) (dotsSide neg seg : Bool) (p : List Nat) (ic : Nat) (input : List Nat) (pos : Int) : Bool × Int :=
+  let mask := attrMask p ic
+  let r := attrMin t dotsSide neg seg mask input (ins p (ic + 5)) pos
+  if r.1 then attrMax t dotsSide neg seg mask input (ins p (ic + 6) - ins p (ic + 5)) r.2 else r
+
+/-- `_lou_handlePassVariableTest`: `some outcome` for a comparison instruction -/
+def varTest (p : List Nat) (ic : Nat) (vars : List Nat) : Option Bool :=
+  let op := ins p ic
+  let v := vars[ins p (ic + 1)]?.getD 0
+  let k := ins p (ic + 2)
+  if op == pass_eq then some (v == k)
+  else if op == pass_lt then some (v < k)
+  else if op == pass_gt then some (v > k)
+  else if op == pass_lteq then some (v ≤ k)
+  else if op == pass_gteq then some (v ≥ k)
+  else none
+
+/-- the check after every operand: `if ((!notOperator && !itsTrue) || (notOperator && itsTrue)) return 0;` —
+    the test goes on with `k` unless the outcome equals the pending negation -/
+def post (neg itsTrue : Bool) (k : TestRes) : TestRes := if itsTrue == neg then .fail else k
+
+@[simp] theorem post_ok (neg b : Bool) (k : TestRes) (m : Match) (ic : Nat) :
+    post neg b k = .ok m ic ↔ (b == neg) = false ∧ k = .ok m ic := by
+  unfold post; split <;> simp_all
+
+/-- the rule a swap instruction refers to.  In the logical table the two reference words of an instruction hold the
+    INDEX of the rule (the DUMP replaces the arena offset by it) -/
+def refRule (t : Table) (p : List Nat) (ic : Nat) : Option Rule := t.rule? (ins p (ic + 1) * 65536 + ins p (ic + 2))
+
+/-- is `x` one of the elements a swap rule lists?  (`swapdd` stores its cells at the odd positions) -/
+def swapMember (r : Rule) (x : Nat) : Bool :=
+  if r.opcode == CTO_SwapDd then (List.range (r.chars.length / 2)).any (fun k => r.chars[2 * k + 1]?.getD 0 == x)
+  else r.chars.any (· == x)
+
+/-- forward `swapTest`: `min` members are required, up to `max` are taken -/
+def swapMin (r : Rule) (input : List Nat) : Nat → Int → Option Int
+  | 0, p => some p
+  | k + 1, p => if p ≥ input.length then none else if swapMember r (elem input p) then swapMin r input k (p + 1) else none
+
+def swapMax (r : Rule) (input : List Nat) : Nat → Int → Int
+  | 0, p => p
+  | k + 1, p => if p ≥ input.length then p else if swapMember r (elem input p) then swapMax r input k (p + 1) else p
+
+def swapOperand (r : Rule) (p : List Nat) (ic : Nat) (input : List Nat) (pos : Int) : Option Int :=
+  match swapMin r input (ins p (ic + 3)) pos with
+  | none => none
+  | some q => if ins p (ic + 3) == ins p (ic + 4) then some q else some (swapMax r input (ins p (ic + 4) - ins p (ic + 3)) q)
+
+/-- the context a test runs in: the table, which side the stage works on, the pass variables -/
+structure Ctx where
+  t : Table
+  dotsSide : Bool
+  vars : List Nat
+
+/-- `passDoTest` (forward).  `fuel` bounds the number of instructions; `neg` is the pending `!`. -/
+def fwdTest (c : Ctx) (p : List Nat) (input : List Nat) (startMatch : Int) :
+    Nat → Int → Nat → Int → Int → Bool → TestRes
+  | 0, _, _, _, _, _ => .fail
+  | fuel + 1, pos, ic, sr, er, neg =>
     if ic ≥ p.length then .fail
     else if pos > input.length ∨ pos < 0 then .fail
     else
       let op := ins p ic
-      if op == pass_first then
-        if pos != 0 then .fail else fwdTest p input startMatch fuel pos (ic + 1) sr er
-      else if op == pass_last then
-        if pos != input.length then .fail else fwdTest p input startMatch fuel pos (ic + 1) sr er
+      if op == pass_not then fwdTest c p input startMatch fuel pos (ic + 1) sr er (!neg)
+      else if op == pass_first then post neg (pos == 0) (fwdTest c p input startMatch fuel pos (ic + 1) sr er false)
+      else if op == pass_last then post neg (pos == input.length) (fwdTest c p input startMatch fuel pos (ic + 1) sr er false)
       else if op == pass_lookback then
         let pos' := pos - (ins p (ic + 1) : Int)
-        if pos' < 0 then .fail else fwdTest p input startMatch fuel pos' (ic + 2) sr er
+        -- forward: the position stays negative (only `searchPos` is reset), so even under `!` the next
+        -- instruction fails on it
+        if pos' < 0 then post neg false (fwdTest c p input startMatch fuel pos' (ic + 2) sr er false)
+        else post neg true (fwdTest c p input startMatch fuel pos' (ic + 2) sr er false)
       else if op == pass_string || op == pass_dots then
-        let lit := literal p ic
-        if !matchFwd input pos lit then .fail
-        else fwdTest p input startMatch fuel (pos + ins p (ic + 1)) (ic + ins p (ic + 1) + 2) sr er
-      else if op == pass_startReplace then fwdTest p input startMatch fuel pos (ic + 1) pos er
-      else if op == pass_endReplace then fwdTest p input startMatch fuel pos (ic + 1) sr pos
+        post neg (matchFwd input pos (literal p ic)) (fwdTest c p input startMatch fuel (pos + ins p (ic + 1)) (ic + ins p (ic + 1) + 2) sr er false)
+      else if op == pass_startReplace then post neg true (fwdTest c p input startMatch fuel pos (ic + 1) pos er false)
+      else if op == pass_endReplace then post neg true (fwdTest c p input startMatch fuel pos (ic + 1) sr pos false)
+      else if op == pass_attributes then
+        -- the operand takes the `!` into account itself and clears it
+        let r := attrOperand c.t c.dotsSide neg true p ic input pos
+        if r.1 then fwdTest c p input startMatch fuel r.2 (ic + 7) sr er false else .fail
+      else if op == pass_swap then
+        match refRule c.t p ic with
+        | none => .unsupported
+        | some r =>
+          match swapOperand r p ic input pos with
+          | none => post neg false (fwdTest c p input startMatch fuel pos (ic + 5) sr er false)
+          | some q => post neg true (fwdTest c p input startMatch fuel q (ic + 5) sr er false)
       else if op == pass_endTest then
         let endMatch := pos
         let sr' := if sr == -1 then startMatch else sr
         let er' := if sr == -1 then endMatch else er
         if sr' < startMatch ∨ er' == -1 ∨ er' < sr' ∨ endMatch < startMatch then .fail
         else .ok ⟨startMatch, sr', er', endMatch⟩ (ic + 1)
-      else .unsupported
+      else
+        match varTest p ic c.vars with
+        | some b => post neg b (fwdTest c p input startMatch fuel pos (ic + 3) sr er false)
+        | none => .unsupported
 
 /-- `back_passDoTest` on the literal fragment -/
-def backTest (p : List Nat) (input : List Nat) (startMatch : Int) :
-    Nat → Int → Nat → Int → Int → TestRes
-  | 0, _, _, _, _ => .fail
-  | fuel + 1, pos, ic, sr, er =>
+def backTest (c : Ctx) (p : List Nat) (input : List Nat) (startMatch : Int) :
+    Nat → Int → Nat → Int → Int → Bool → TestRes
+  | 0, _, _, _, _, _ => .fail
+  | fuel + 1, pos, ic, sr, er, neg =>
     if ic ≥ p.length then .fail
     else if pos > input.length then .fail
     else
       let op := ins p ic
-      if op == pass_first then
-        if pos != 0 then .fail else backTest p input startMatch fuel pos (ic + 1) sr er
-      else if op == pass_last then
-        if pos != input.length then .fail else backTest p input startMatch fuel pos (ic + 1) sr er
+      if op == pass_not then backTest c p input startMatch fuel pos (ic + 1) sr er (!neg)
+      else if op == pass_first then post neg (pos == 0) (backTest c p input startMatch fuel pos (ic + 1) sr er false)
+      else if op == pass_last then post neg (pos == input.length) (backTest c p input startMatch fuel pos (ic + 1) sr er false)
       else if op == pass_lookback then
         let pos' := pos - (ins p (ic + 1) : Int)
-        if pos' < 0 then .fail else backTest p input startMatch fuel pos' (ic + 2) sr er
+        if pos' < 0 then post neg false (backTest c p input startMatch fuel 0 (ic + 2) sr er false)
+        else post neg true (backTest c p input startMatch fuel pos' (ic + 2) sr er false)
       else if op == pass_string || op == pass_dots then
-        let lit := literal p ic
-        if !matchBack input pos lit then .fail
-        else backTest p input startMatch fuel (pos + ins p (ic + 1)) (ic + ins p (ic + 1) + 2) sr er
-      else if op == pass_startReplace then backTest p input startMatch fuel pos (ic + 1) pos er
-      else if op == pass_endReplace then backTest p input startMatch fuel pos (ic + 1) sr pos
+        post neg (matchBack input pos (literal p ic)) (backTest c p input startMatch fuel (pos + ins p (ic + 1)) (ic + ins p (ic + 1) + 2) sr er false)
+      else if op == pass_startReplace then post neg true (backTest c p input startMatch fuel pos (ic + 1) pos er false)
+      else if op == pass_endReplace then post neg true (backTest c p input startMatch fuel pos (ic + 1) sr pos false)
+      else if op == pass_attributes then
+        -- the backward interpreter evaluates the operand plainly and lets the `!` negate its outcome
+        let r := attrOperand c.t c.dotsSide false false p ic input pos
+        post neg r.1 (backTest c p input startMatch fuel r.2 (ic + 7) sr er false)
       else if op == pass_endTest then
         let endMatch := pos
         let sr' := if sr == -1 then startMatch else sr
         let er' := if sr == -1 then endMatch else er
         if er' < sr' ∨ er' < startMatch ∨ endMatch < startMatch then .fail
         else .ok ⟨startMatch, sr', er', endMatch⟩ (ic + 1)
-      else .unsupported
+      else
+        match varTest p ic c.vars with
+        | some b => post neg b (backTest c p input startMatch fuel pos (ic + 3) sr er false)
+        | none => .unsupported
 
 /-- the stage output so far: cells and the position map (forward: one entry per output cell = input
     position; backward: one entry per input position = output position, `none` = never written) -/
@@ -119,8 +223,8 @@ structure Acc where
 
 inductive ActRes where
   | unsupported
-  | fail (a : Acc)                      -- the output is full: the stage stops here, keeping what was written
-  | ok (a : Acc) (newPos : Int)
+  | fail (a : Acc) (vars : List Nat)    -- the output is full: the stage stops here, keeping what was written
+  | ok (a : Acc) (newPos : Int) (vars : List Nat)
   deriving Repr, DecidableEq
 
 def slice (input : List Nat) (a b : Int) : List Nat :=
@@ -128,6 +232,50 @@ def slice (input : List Nat) (a b : Int) : List Nat :=
 
 def range (a b : Int) : List Int :=
   if b ≤ a then [] else (List.range (b - a).toNat).map (fun (k : Nat) => a + (k : Int))
+
+/-- `_lou_handlePassVariableAction`: the new variables and the instruction length, for an assignment -/
+def varAction (p : List Nat) (ic : Nat) (vars : List Nat) : Option (List Nat × Nat) :=
+  let op := ins p ic
+  let i := ins p (ic + 1)
+  let v := vars[i]?.getD 0
+  if op == pass_eq then some (vars.set i (ins p (ic + 2)), 3)
+  else if op == pass_hyphen then some (vars.set i (v - 1), 2)
+  else if op == pass_plus then some (vars.set i (v + 1), 2)
+  else none
+
+/-- position of `x` among the elements of a swap rule -/
+def swapIndex (r : Rule) (x : Nat) : Option Nat :=
+  if r.opcode == CTO_SwapDd then (List.range (r.chars.length / 2)).find? (fun k => r.chars[2 * k + 1]?.getD 0 == x)
+  else (List.range r.chars.length).find? (fun k => r.chars[k]?.getD 0 == x)
+
+/-- start of the `n`-th replacement in the length-prefixed list (`k += replacements[k]`) -/
+def replOffset (repl : List Nat) : Nat → Nat → Nat
+  | 0, k => k
+  | n + 1, k => replOffset repl n (k + repl[k]?.getD 0)
+
+/-- forward `swapReplace` for one input element: what it appends (none = output full) -/
+def swapOne (r : Rule) (x : Nat) (p : Int) (max : Nat) (a : Acc) : Option Acc :=
+  match swapIndex r x with
+  | none => some a                              -- not a member: nothing is written for it
+  | some i =>
+    if r.opcode == CTO_SwapCc then
+      if a.out.length + 1 > max then none
+      else some { out := a.out ++ [r.dots[i]?.getD 0], map := a.map ++ [p] }
+    else
+      let k := replOffset r.dots i 0
+      let l := r.dots[k]?.getD 0 - 1
+      if r.dots[k]?.getD 0 == 0 then none     -- `if (length < 0) return 0`
+      else if a.out.length + l > max then none
+      else
+        let cells := (r.dots.drop (k + 1)).take l
+        some { out := a.out ++ cells, map := a.map ++ List.replicate cells.length p }
+
+def swapReplace (r : Rule) (input : List Nat) (max : Nat) : Nat → Int → Acc → Acc × Bool
+  | 0, _, a => (a, true)
+  | n + 1, p, a =>
+    match swapOne r (elem input p) p max a with
+    | none => (a, false)
+    | some a' => swapReplace r input max n (p + 1) a'
 
 /-- forward `copyCharacters` for an opcode other than `context` -/
 def fwdCopy (input : List Nat) (frm to : Int) (max : Nat) (a : Acc) : Option Acc :=
@@ -137,19 +285,19 @@ def fwdCopy (input : List Nat) (frm to : Int) (max : Nat) (a : Acc) : Option Acc
   else some a
 
 /-- `passDoAction` (forward), instructions from `ic` on -/
-def fwdActLoop (p : List Nat) (input : List Nat) (m : Match) (max : Nat) (destStartMatch : Nat) :
-    Nat → Nat → Acc → Nat → Int → ActRes
-  | 0, _, _, _, _ => .unsupported
-  | fuel + 1, ic, a, destStartReplace, newPos =>
-    if ic ≥ p.length then .ok a newPos
+def fwdActLoop (t : Table) (p : List Nat) (input : List Nat) (m : Match) (max : Nat) (destStartMatch : Nat) :
+    Nat → Nat → Acc → Nat → Int → List Nat → ActRes
+  | 0, _, _, _, _, _ => .unsupported
+  | fuel + 1, ic, a, destStartReplace, newPos, vars =>
+    if ic ≥ p.length then .ok a newPos vars
     else
       let op := ins p ic
       if op == pass_string || op == pass_dots then
         let n := ins p (ic + 1)
-        if a.out.length + n > max then .fail a
-        else fwdActLoop p input m max destStartMatch fuel (ic + n + 2)
-              { out := a.out ++ literal p ic, map := a.map ++ List.replicate (literal p ic).length m.startReplace } destStartReplace newPos
-      else if op == pass_omit then fwdActLoop p input m max destStartMatch fuel (ic + 1) a destStartReplace newPos
+        if a.out.length + n > max then .fail a vars
+        else fwdActLoop t p input m max destStartMatch fuel (ic + n + 2)
+              { out := a.out ++ literal p ic, map := a.map ++ List.replicate (literal p ic).length m.startReplace } destStartReplace newPos vars
+      else if op == pass_omit then fwdActLoop t p input m max destStartMatch fuel (ic + 1) a destStartReplace newPos vars
       else if op == pass_copy then
         let count := destStartReplace - destStartMatch
         -- memmove(&out[destStartMatch], &out[destStartReplace], count); length -= count
@@ -162,17 +310,27 @@ def fwdActLoop (p : List Nat) (input : List Nat) (m : Match) (max : Nat) (destSt
               some ({ out := out', map := a.map.take (a.out.length - count) }, destStartMatch)
           else some (a, destStartReplace)
         match moved with
-        | none => .fail a
+        | none => .fail a vars
         | some (a1, dsr) =>
           match fwdCopy input m.startReplace m.endReplace max a1 with
-          | none => .fail a1
-          | some a2 => fwdActLoop p input m max destStartMatch fuel (ic + 1) a2 dsr m.endMatch
-      else .unsupported
+          | none => .fail a1 vars
+          | some a2 => fwdActLoop t p input m max destStartMatch fuel (ic + 1) a2 dsr m.endMatch vars
+      else if op == pass_swap then
+        match refRule t p ic with
+        | none => .unsupported
+        | some r =>
+          let res := swapReplace r input max (m.endReplace - m.startReplace).toNat m.startReplace a
+          if res.2 then fwdActLoop t p input m max destStartMatch fuel (ic + 3) res.1 destStartReplace newPos vars
+          else .fail res.1 vars
+      else
+        match varAction p ic vars with
+        | some (vars', len) => fwdActLoop t p input m max destStartMatch fuel (ic + len) a destStartReplace newPos vars'
+        | none => .unsupported
 
-def fwdAction (p : List Nat) (input : List Nat) (m : Match) (ic : Nat) (max : Nat) (a : Acc) : ActRes :=
+def fwdAction (t : Table) (p : List Nat) (input : List Nat) (m : Match) (ic : Nat) (max : Nat) (a : Acc) (vars : List Nat) : ActRes :=
   match fwdCopy input m.startMatch m.startReplace max a with
-  | none => .fail a
-  | some a1 => fwdActLoop p input m max a.out.length (p.length + 1) ic a1 a1.out.length m.endReplace
+  | none => .fail a vars
+  | some a1 => fwdActLoop t p input m max a.out.length (p.length + 1) ic a1 a1.out.length m.endReplace vars
 
 /-- backward position map: assignment `posMapping[k] = v` for k in [a, b) -/
 def setRange (map : List Int) (a b : Int) (v : Int) : List Int :=
@@ -187,17 +345,17 @@ def backCopy (input : List Nat) (frm to : Int) (max : Nat) (a : Acc) : Option Ac
   else some a
 
 def backActLoop (p : List Nat) (input : List Nat) (m : Match) (max : Nat) (destStartMatch : Nat) :
-    Nat → Nat → Acc → Nat → Int → ActRes
-  | 0, _, _, _, _ => .unsupported
-  | fuel + 1, ic, a, destStartReplace, newPos =>
-    if ic ≥ p.length then .ok a newPos
+    Nat → Nat → Acc → Nat → Int → List Nat → ActRes
+  | 0, _, _, _, _, _ => .unsupported
+  | fuel + 1, ic, a, destStartReplace, newPos, vars =>
+    if ic ≥ p.length then .ok a newPos vars
     else
       let op := ins p ic
       if op == pass_string || op == pass_dots then
         let n := ins p (ic + 1)
-        if a.out.length + n > max then .fail a
-        else backActLoop p input m max destStartMatch fuel (ic + n + 2) { a with out := a.out ++ literal p ic } destStartReplace newPos
-      else if op == pass_omit then backActLoop p input m max destStartMatch fuel (ic + 1) a destStartReplace newPos
+        if a.out.length + n > max then .fail a vars
+        else backActLoop p input m max destStartMatch fuel (ic + n + 2) { a with out := a.out ++ literal p ic } destStartReplace newPos vars
+      else if op == pass_omit then backActLoop p input m max destStartMatch fuel (ic + 1) a destStartReplace newPos vars
       else if op == pass_copy then
         let count := destStartReplace - destStartMatch
         let a1dsr : Acc × Nat :=
@@ -207,18 +365,21 @@ def backActLoop (p : List Nat) (input : List Nat) (m : Match) (max : Nat) (destS
              destStartMatch)
           else (a, destStartReplace)
         match backCopy input m.startReplace m.endReplace max a1dsr.1 with
-        | none => .fail a1dsr.1
+        | none => .fail a1dsr.1 vars
         | some a2 =>
           backActLoop p input m max destStartMatch fuel (ic + 1)
-            { a2 with map := setRange a2.map m.endReplace m.endMatch a2.out.length } a1dsr.2 m.endMatch
-      else .unsupported
+            { a2 with map := setRange a2.map m.endReplace m.endMatch a2.out.length } a1dsr.2 m.endMatch vars
+      else
+        match varAction p ic vars with
+        | some (vars', len) => backActLoop p input m max destStartMatch fuel (ic + len) a destStartReplace newPos vars'
+        | none => .unsupported
 
-def backAction (p : List Nat) (input : List Nat) (m : Match) (ic : Nat) (max : Nat) (a : Acc) : ActRes :=
+def backAction (p : List Nat) (input : List Nat) (m : Match) (ic : Nat) (max : Nat) (a : Acc) (vars : List Nat) : ActRes :=
   match backCopy input m.startMatch m.startReplace max a with
-  | none => .fail a
+  | none => .fail a vars
   | some a1 =>
     backActLoop p input m max a.out.length (p.length + 1) ic
-      { a1 with map := setRange a1.map m.startReplace m.endReplace a1.out.length } a1.out.length m.endReplace
+      { a1 with map := setRange a1.map m.startReplace m.endReplace a1.out.length } a1.out.length m.endReplace vars
 
 /-! ### the key of a pass rule: `passFindCharacters` (compileTranslationTable.c) -/
 
@@ -292,16 +453,16 @@ def opcodeOfPass (n : Nat) : Nat :=
   if n == 0 then CTO_Correct else if n == 1 then CTO_Context else if n == 2 then CTO_Pass2
   else if n == 3 then CTO_Pass3 else CTO_Pass4
 
-def select (back : Bool) (pass : Nat) (rules : List Rule) (input : List Nat) (pos : Int) : Sel :=
+def select (c : Ctx) (back : Bool) (pass : Nat) (rules : List Rule) (input : List Nat) (pos : Int) : Sel :=
   match rules with
   | [] => .none
   | r :: rest =>
-    if back && r.opcode != opcodeOfPass pass then select back pass rest input pos
+    if back && r.opcode != opcodeOfPass pass then select c back pass rest input pos
     else
-      match (if back then backTest else fwdTest) r.dots input pos (r.dots.length + 1) pos 0 (-1) (-1) with
+      match (if back then backTest else fwdTest) c r.dots input pos (r.dots.length + 1) pos 0 (-1) (-1) false with
       | .unsupported => .unsupported
       | .ok m ic => .rule r m ic
-      | .fail => select back pass rest input pos
+      | .fail => select c back pass rest input pos
 
 /-! ### the stage scanners -/
 
@@ -328,39 +489,39 @@ def skipSpaces (t : Table) (input : List Nat) : Nat → Nat → Nat
 
 /-- forward stage.  `pass = 0`: makeCorrections (no blank skipping at a failure); 2..4: translatePass -/
 def fwdLoop (t : Table) (pass : Nat) (rules : List Rule) (input : List Nat) (max : Nat) :
-    Nat → Int → Bool → Acc → List Nat → StageRes
-  | 0, _, _, _, _ => .fuel
-  | fuel + 1, pos, posInc, a, applied =>
+    Nat → Int → Bool → Acc → List Nat → List Nat → StageRes
+  | 0, _, _, _, _, _ => .fuel
+  | fuel + 1, pos, posInc, a, applied, vars =>
     let finish (p : Int) (a : Acc) : StageRes :=
       let p' := if pass == 0 then p.toNat else skipSpaces t input input.length p.toNat
       .done { out := a.out, map := a.map, realInlen := p', applied := applied }
     if pos ≥ input.length then .done { out := a.out, map := a.map, realInlen := pos.toNat, applied := applied }
     else
-      let sel := if posInc then select false pass rules input pos else Sel.none
+      let sel := if posInc then select ⟨t, pass != 0, vars⟩ false pass rules input pos else Sel.none
       match sel with
       | .unsupported => .unsupported
       | .none =>
         if a.out.length + 1 > max then finish pos a
         else fwdLoop t pass rules input max fuel (pos + 1) true
-              { out := a.out ++ [elem input pos], map := a.map ++ [pos] } applied
+              { out := a.out ++ [elem input pos], map := a.map ++ [pos] } applied vars
       | .rule r m ic =>
-        match fwdAction r.dots input m ic max a with
+        match fwdAction t r.dots input m ic max a vars with
         | .unsupported => .unsupported
-        | .fail a' => finish pos a'
-        | .ok a' newPos => fwdLoop t pass rules input max fuel newPos (newPos != pos) a' (applied ++ [r.idx])
+        | .fail a' _ => finish pos a'
+        | .ok a' newPos vars' => fwdLoop t pass rules input max fuel newPos (newPos != pos) a' (applied ++ [r.idx]) vars'
 
 def rulesOf (t : Table) (chain : List Nat) : List Rule := chain.filterMap t.rule?
 
 def fwdStage (t : Table) (pass : Nat) (input : List Nat) (max : Nat) : StageRes :=
-  fwdLoop t pass (rulesOf t (t.forPassChain pass)) input max (2 * input.length + 2) 0 true ⟨[], []⟩ []
+  fwdLoop t pass (rulesOf t (t.forPassChain pass)) input max (2 * input.length + 2) 0 true ⟨[], []⟩ [] (List.replicate NUMVAR 0)
 
 /-- backward stage; the map has one entry per input position, unset entries keep `unset` -/
 def unset : Int := -7777
 
 def backLoop (t : Table) (pass : Nat) (rules : List Rule) (input : List Nat) (max : Nat) :
-    Nat → Int → Bool → Acc → List Nat → StageRes
-  | 0, _, _, _, _ => .fuel
-  | fuel + 1, pos, posInc, a, applied =>
+    Nat → Int → Bool → Acc → List Nat → List Nat → StageRes
+  | 0, _, _, _, _, _ => .fuel
+  | fuel + 1, pos, posInc, a, applied, vars =>
     let finish (p : Int) (a : Acc) : StageRes :=
       if pass == 0 then .done { out := a.out, map := a.map, realInlen := p.toNat, applied := applied }
       else
@@ -368,21 +529,21 @@ def backLoop (t : Table) (pass : Nat) (rules : List Rule) (input : List Nat) (ma
         .done { out := a.out, map := setRange a.map p p' a.out.length, realInlen := p', applied := applied }
     if pos ≥ input.length then .done { out := a.out, map := a.map, realInlen := pos.toNat, applied := applied }
     else
-      let sel := if posInc then select true pass rules input pos else Sel.none
+      let sel := if posInc then select ⟨t, pass != 0, vars⟩ true pass rules input pos else Sel.none
       match sel with
       | .unsupported => .unsupported
       | .none =>
         if a.out.length + 1 > max then finish pos a
         else backLoop t pass rules input max fuel (pos + 1) true
-              { out := a.out ++ [elem input pos], map := setRange a.map pos (pos + 1) a.out.length } applied
+              { out := a.out ++ [elem input pos], map := setRange a.map pos (pos + 1) a.out.length } applied vars
       | .rule r m ic =>
-        match backAction r.dots input m ic max a with
+        match backAction r.dots input m ic max a vars with
         | .unsupported => .unsupported
-        | .fail a' => finish pos a'
-        | .ok a' newPos => backLoop t pass rules input max fuel newPos (newPos > pos) a' (applied ++ [r.idx])
+        | .fail a' _ => finish pos a'
+        | .ok a' newPos vars' => backLoop t pass rules input max fuel newPos (newPos > pos) a' (applied ++ [r.idx]) vars'
 
 def backStage (t : Table) (pass : Nat) (input : List Nat) (max : Nat) : StageRes :=
   backLoop t pass (rulesOf t (t.backPassChain pass)) input max (2 * input.length + 2) 0 true
-    ⟨[], List.replicate input.length unset⟩ []
+    ⟨[], List.replicate input.length unset⟩ [] (List.replicate NUMVAR 0)
 
 end Lou.Pass
